@@ -184,6 +184,40 @@ NUM_TEMPLATES = [
 ]
 
 
+H_REFS = ['A', 'a < A', 'A.&id', 'CLS.&Type', 'A {INTEGER}', 'SEQUENCE OF A', 'SET OF a < A', 'A (1..5)', 'A (SIZE (1))', 'A (FROM ("a"))', '[0] A',
+          'A (WITH COMPONENTS { x })', 'a < b < A']
+H_CTX = ['T ::= %s', 'T ::= SEQUENCE { f %s }', 'T ::= SEQUENCE { f %s OPTIONAL, ..., g %s }', 'T ::= SET { f %s DEFAULT 1 }', 'T ::= CHOICE { f %s }',
+         'T ::= CHOICE { f %s, ..., [[ g %s ]] }', 'T ::= SEQUENCE OF %s', 'T ::= SET OF %s', 'T ::= SEQUENCE { COMPONENTS OF %s }',
+         'T ::= SEQUENCE { f SEQUENCE { g %s } }', 'T ::= SEQUENCE { f CHOICE { g %s } }', 'v %s ::= 5', 'v %s ::= { }', 'v %s ::= a : 5',
+         'T {X} ::= SEQUENCE { f %s, g X } U ::= T { %s }', 'T ::= INTEGER (%s)', 'T ::= IA5String (%s)', 'T ::= IA5String (FROM (%s))',
+         'T ::= OCTET STRING (SIZE (%s))', 'T ::= OCTET STRING (CONTAINING %s)', 'T ::= BIT STRING (CONTAINING %s ENCODED BY { 1 2 })',
+         'T ::= SEQUENCE { f INTEGER } (WITH COMPONENTS { f (%s) })', 'T ::= %s (CONSTRAINED BY { })', 'T ::= INSTANCE OF %s', 'T ::= TYPE-IDENTIFIER.&Type (%s)']
+H_ENV = ['', 'A ::= CHOICE { a INTEGER, b SEQUENCE { x NULL } }', 'A ::= INTEGER', 'A ::= A', 'A ::= CHOICE { a a < A }', 'A ::= CHOICE { a CHOICE { b NULL } }',
+         'CLS ::= CLASS { &id INTEGER UNIQUE, &Type } A CLS ::= { &id 1, &Type NULL }', 'A ::= SEQUENCE { x A OPTIONAL }', 'A ::= ENUMERATED { a }']
+H_EMPTY = ['ENUMERATED { }', 'CHOICE { }', 'SEQUENCE { }', 'SET { }', 'BIT STRING { }', 'INTEGER { }', 'ENUMERATED { ... }', 'CHOICE { ... }', 'SEQUENCE { ... }',
+           'SEQUENCE { [[ ]] }', 'INTEGER ()', 'IA5String (FROM (""))', 'IA5String (FROM ("" | "a"))', 'IA5String (FROM ("".."z"))', 'IA5String (FROM ("a"..""))',
+           'IA5String (SIZE (1) ^ FROM (""))', 'IA5String (SIZE (1) ^ FROM ("" .. "z"))', 'IA5String (FROM ("a".."z" ^ "0".."9"))',
+           'IA5String (SIZE (1) ^ FROM ("a".."c" ^ "x"))', 'IA5String (SIZE (1) ^ FROM ("" | "z".."a"))', 'IA5String (FROM ("z".."a" | "") ^ SIZE (1))', 'IA5String (SIZE (1) ^ FROM ("a".."c" | ""))', 'NumericString (FROM ("a"))', 'IA5String (FROM (MIN..MAX))',
+           'IA5String (SIZE (1) ^ FROM (MIN..MAX | "a"))', 'SEQUENCE (SIZE (0)) OF NULL', 'INTEGER (1 | 2 ^ "a")', 'INTEGER ("a".."b")', 'IA5String (1..5)',
+           'IA5String (SIZE ("a"))', 'SEQUENCE { a INTEGER (1..0) }', 'INTEGER (ALL EXCEPT 1)', 'INTEGER (ALL EXCEPT (1..5))', 'INTEGER (INCLUDES E)',
+           'ENUMERATED { a(0), a(0) }', 'SEQUENCE { a NULL, a NULL }', 'CHOICE { a NULL, a BOOLEAN }', 'SEQUENCE { a E }', 'SEQUENCE { a SEQUENCE OF E DEFAULT { } }']
+
+
+def hazard_modules(ck):
+    """every kind of type reference (plain, selection, class field, parameterized, constrained, tagged) in every position, against environments in
+    which the referenced name is undefined, of the wrong kind, cyclic or a class object; and empty / degenerate bodies of every constructor"""
+    out = []
+    for e in H_ENV:
+        for c in H_CTX:
+            for r in H_REFS:
+                out.append('%s\n%s' % (e, c.replace('%s', r)))
+    for e in H_EMPTY:
+        out.append('E ::= %s' % e)
+        out.append('S ::= SEQUENCE { f %s OPTIONAL }' % e)
+        out.append('E ::= %s e E ::= x d E ::= { }' % e)
+    return out
+
+
 def gen_cases(ck):
     cases = []
 
@@ -197,6 +231,14 @@ def gen_cases(ck):
     add(BASE, 'base')
     for m in cycle_modules(ck):
         add(wrap(m), 'reference-cycle')
+    hz = hazard_modules(ck)
+    if quick:
+        fixed = hz[-3 * len(H_EMPTY):]              # the degenerate bodies: always all of them
+        rest = hz[:-3 * len(H_EMPTY)]
+        ck.rng.shuffle(rest)
+        hz = fixed + rest[:500]
+    for m in hz:
+        add(wrap(m), 'reference-hazard')
     for t in NUM_TEMPLATES:
         for b in (BIG if not quick else [BIG[i] for i in sorted(ck.rng.sample(range(len(BIG)), 4))]):
             add(wrap(t.replace('%d', str(b))), 'extreme-number')
@@ -211,6 +253,15 @@ def gen_cases(ck):
     # multi-byte characters at every position (sampled)
     for i in range(0, len(BASE), 11 if quick else 2):
         add(BASE[:i] + ck.rng.choice(['é', '€', '𝄞']) + BASE[i:], 'multibyte')
+    # error excerpts cut at a fixed number of bytes: a malformed definition that nothing unindented follows (no END), with runs of
+    # multi-byte characters placed so that every alignment of a 2-, 3- and 4-byte character meets byte 250..350 of the context
+    for ch in ('é', '€', '𝄞'):
+        for pad in range(0, 5 if quick else 12):
+            run = ch * 160
+            add('M DEFINITIONS ::= BEGIN\nA ::= SEQUENCE {\n  a INTEGER, -- %s%s\n  b BOOLEAN ?\n}\n' % ('x' * pad, run), 'excerpt-boundary')
+            add('M DEFINITIONS ::= BEGIN\nB ::= NULL\nA ::= SEQUENCE {\n  b BOOLEAN ?\n  -- %s%s\n  c NULL }\n  END\n' % ('x' * pad, run), 'excerpt-boundary')
+            add('M DEFINITIONS ::= BEGIN\n  v UTF8String ::= "%s%s" ?\n  END' % ('x' * pad, run), 'excerpt-boundary')
+            add('%s%s\n' % ('y' * pad, run), 'excerpt-boundary')
     # byte soup
     for _ in range(400 if quick else 20000):
         k = ck.rng.randint(1, 40)
